@@ -289,7 +289,8 @@ type evalEnv struct {
 var pooled *evalEnv
 
 var preludeForms = []string{"(def a 2)", "(def b 3)", "(def c 5)", "(def d 7)", "(def x 0)", "(def y 0)",
-	"(def v [10 20 30 40 50 60])", "(def h (hash k:11 j:(hash m:[7 8 9])))"}
+	"(def v [10 20 30 40 50 60])", "(def h (hash k:11 j:(hash m:[7 8 9])))",
+	"(def pts [(hash x:3 y:4 ok:true) (hash x:1 y:20 ok:false)])"}
 
 func getEvalEnv() *evalEnv {
 	if pooled != nil && len(pooled.env.VerifGlobalNames()) == pooled.nglobals {
@@ -672,8 +673,15 @@ func (g *gen) commentCase(base string, withEval bool) {
 // The documented sign rule (a '-' glued to a following digit and preceded by a blank or an
 // operator character starts a negative literal) is applied to the intended tokens.
 func (g *gen) spacingCase(texts []string, gaps []string, tag string) {
+	g.spacingCasePad("", texts, gaps, tag)
+}
+
+// spacingCasePad: the same with blanks (pad) between the opening brace and the first token, so that the
+// block's runes fall on every position of the lexer's look-back ring (size 20, wraps).
+func (g *gen) spacingCasePad(pad string, texts []string, gaps []string, tag string) {
 	var sb strings.Builder
 	var intended []string
+	sb.WriteString(pad)
 	for i, t := range texts {
 		sb.WriteString(t)
 		if i < len(gaps) {
@@ -712,6 +720,65 @@ func (g *gen) spacingCase(texts []string, gaps []string, tag string) {
 		impl = implExpand(g.env, src)
 	}
 	g.out.Case(input, escFinal(impl)+"\t\t"+escFinal(src), true, tag)
+}
+
+// lexObs: the tokens a fresh real lexer (LexNextRune rune by rune) produces for the text.
+func lexObs(text string) (res string) {
+	defer func() {
+		if r := recover(); r != nil {
+			res = "PANIC"
+		}
+	}()
+	toks, err := zygo.VerifLex(text)
+	parts := make([]string, 0, len(toks)+1)
+	for _, t := range toks {
+		parts = append(parts, t.Kind+":"+zygo.VerifEsc(t.Text))
+	}
+	if err != nil {
+		parts = append(parts, "!E")
+	}
+	return strings.Join(parts, " ")
+}
+
+// lexCase: a whole text through the real lexer; the model (Lexer.v, with the ring) and the ring-free
+// specification lexer (LexerPrev.v) lex the same runes.
+func (g *gen) lexCase(text string, tag string) {
+	if g.seen["lex:"+text] {
+		return
+	}
+	g.seen["lex:"+text] = true
+	var sb strings.Builder
+	sb.WriteString("#lex")
+	for _, r := range text {
+		sb.WriteString(" " + strconv.Itoa(int(r)))
+	}
+	g.out.Case(sb.String(), escFinal(lexObs(text))+"\t\t"+escFinal(text), true, tag)
+}
+
+// padOf: exactly n runes that leave the lexer in normal mode with an empty buffer; kind 0 = spaces,
+// 1 = blanks of every kind, 2 = words (the ring is full of letters), 3 = numbers with exponents and
+// signs (the ring is full of e / - / digits: a wrong look-back slot then changes the decision)
+func padOf(kind, n int) string {
+	if n == 0 {
+		return ""
+	}
+	var unit string
+	switch kind {
+	case 0:
+		unit = " "
+	case 1:
+		unit = " \t\n"
+	case 2:
+		unit = "xe ye "
+	default:
+		unit = "1e-5 -e "
+	}
+	var sb strings.Builder
+	for sb.Len() < n-1 {
+		sb.WriteByte(unit[sb.Len()%len(unit)])
+	}
+	sb.WriteByte(' ')
+	return sb.String()[sb.Len()-n:]
 }
 
 var binOps = []string{"+", "-", "*", "/", "mod", "**", "and", "or", "=", ":=", "+=", "-=", "==", "!=", ">", ">=", "<", "<=", ","}
@@ -1158,6 +1225,88 @@ func main() {
 			gaps = append(gaps, gp[0], gp[1])
 		}
 		g.spacingCase(texts, gaps, "spacing-random")
+	}
+
+	// H. postfix chains (index, slice, field access after an index / a call / a field) in NESTED positions:
+	// the postfix operators read the token they belong to from the Pratt parser's CnodeStack, whose top
+	// must be the innermost Expression's current token at every nesting depth
+	chainsEval := []string{"pts[1].x", "pts[0] .y", "pts[a - 1].y", "(t h).k", "(t h) .j.m[1]", "h.j .m[0]", "h.j.m[1]", "(t pts)[1].x",
+		"pts[1:2][0].x", "v[1:4][1]", "(t v)[2]", "pts[0].ok", "h .j .m[2]", "pts[pts[1].x].y", "v[pts[1] .x]"}
+	chainsParse := []string{"a[b][c].f", "a[b].f.g[2] .q", "(g).f", "(g x)[1] .f[2]", "a .b .c", "a[1][2][3]", "a[b:c].f[d:]"}
+	ctxs := []string{"%s", "x = %s", "y = x = %s", "not %s", "not not %s", "a , %s", "%s , a", "if 2 < %s { 7 } else { 8 }", "if %s { 7 }",
+		"if a < b { %s } else { 0 }", "v[%s]", "v[%s:]", "v[1:%s]", "a; %s", "a\n%s", "x = 1\n%s", "{1 + %s}", "1 + {%s}", "(t {2 * %s})",
+		"for i := 0; i < %s; i++ { x += 1 }", "for i := %s; i < 3; i++ { x += i }", "1 + 2 * %s", "1 * 2 + %s", "b ** a ** %s", "x = 1 + not %s"}
+	for _, o := range binOps {
+		ctxs = append(ctxs, "1 "+o+" %s", "%s "+o+" 1", "a "+o+" b "+o+" %s")
+	}
+	for ci, cx := range ctxs {
+		for pi, pch := range chainsEval {
+			txt := strings.Replace(cx, "%s", pch, 1)
+			g.parseCase(txt, thorough || !strings.Contains(cx, ":=") && (ci+pi)%3 == 0 || ci < 12, "postfix-chain-nested")
+		}
+		for _, pch := range chainsParse {
+			g.parseCase(strings.Replace(cx, "%s", pch, 1), false, "postfix-chain-nested")
+		}
+	}
+	for _, p1 := range chainsEval {
+		for pi, p2 := range chainsEval {
+			g.parseCase(p1+" * "+p2, pi%4 == 0, "postfix-chain-pair")
+			g.parseCase(p1+" = "+p2, false, "postfix-chain-pair")
+		}
+	}
+
+	// G. the lexer's look-back ring (priorRune [20]rune): the sign / exponent decisions at EVERY position
+	// of the ring, including the wrap-around, with rings full of blanks, letters, e's and signs
+	prevs := []string{" ", "\t", "\n", "(", "[", "{", ",", ";", ":", "+", "-", "*", "/", "<", ">", "=", "!", "&", "|", "^", "~", "@", "%",
+		"a", "1", ")", "]", "}", "e", "E", "_", "\"s\"", "é"}
+	nexts := []string{"1", ".5", "a", "="}
+	if thorough {
+		nexts = append(nexts, "-", ">", "0x1", " 1")
+	}
+	var lexBodies []string
+	for _, pv := range prevs {
+		for _, nx := range nexts {
+			lexBodies = append(lexBodies, "x"+pv+"-"+nx+" ")
+		}
+	}
+	for _, m := range []string{"1", "2.5", "0x1", "x", "", "1_0", "-3"} {
+		for _, e := range []string{"e", "E"} {
+			for _, sg := range []string{"+", "-"} {
+				lexBodies = append(lexBodies, m+e+sg+"5 ")
+			}
+		}
+	}
+	maxPad := 44
+	if thorough {
+		maxPad = 104
+	}
+	for kind := 0; kind < 4; kind++ {
+		for n := 0; n <= maxPad; n++ {
+			if !thorough && kind > 0 && !(n%20 >= 14 || n%20 <= 5) {
+				continue // quick tier: the other pad kinds only around the wrap-around
+			}
+			pad := padOf(kind, n)
+			for _, b := range lexBodies {
+				g.lexCase(pad+b, "lex-ring-offset")
+			}
+			g.out.Dist[fmt.Sprintf("lex-ring-residue-%02d", n%20)]++
+		}
+	}
+	// the same at the level of whole blocks (reader + Pratt parser): blanks after the brace
+	for n := 0; n <= maxPad; n++ {
+		pad := padOf(n%2, n)
+		for _, o1 := range []string{"-", "+", "*", "==", "=", ","} {
+			for _, gp := range gapsets {
+				g.spacingCasePad(pad, []string{"a", o1, "1"}, []string{gp[0], gp[1]}, "spacing-ring-offset")
+				if gp[1] == "" && (o1 == "-" || o1 == "+" || o1 == "=" || o1 == "*") {
+					continue // a--1, a+-1 ... would be the two-rune operators -- += -= etc. or are not documented
+				}
+				g.spacingCasePad(pad, []string{"a", o1, "-", "1"}, []string{gp[0], gp[1], ""}, "spacing-ring-offset")
+			}
+		}
+		g.spacingCasePad(pad, []string{"3", "+", "b", "-", "4"}, []string{" ", " ", "", ""}, "spacing-ring-offset")
+		g.spacingCasePad(pad, []string{"1e5", "-", "1"}, []string{"", ""}, "spacing-ring-offset")
+		g.spacingCasePad(pad, []string{"0xfe", "-", "1"}, []string{"", ""}, "spacing-ring-offset")
 	}
 
 	out.Rule = "one case per distinct block text: token list read by the real reader (or intended tokens for the spacing family) -> statement list of the real Pratt parser"
